@@ -18,7 +18,7 @@ theorem WF.emitPro {s : St} (h : WF s) {i : Nat} {im : Impl} (hi : aget s.impls 
     WF (Sigc.Inv.emitPro s i im) := by
   unfold Sigc.Inv.emitPro
   have h1 : WF s.fresh.2 := h.fresh
-  refine ⟨?_, h1.vars, h1.objs, h1.trks⟩
+  refine ⟨?_, h1.vars, h1.objs, h1.trks, h1.owners⟩
   exact h.impls.aset_insert hi _ { id := s.next, slot := {}, linked := false } rfl (SlotBelow.of_nil rfl)
     (Or.inr rfl)
 
@@ -43,8 +43,8 @@ theorem WF.forceDelG {s : St} (h : WF s) (g : Nat) : WF (Sigc.Inv.forceDelG s g)
 theorem WF_stable : Sigc.Inv.Stable WF where
   log _ e _ h := h.log e
   fail _ m _ h := h.fail m
-  depth _ _ _ h := h.frame _ rfl rfl rfl rfl rfl
-  steps _ _ _ h := h.frame _ rfl rfl rfl rfl rfl
+  depth _ _ _ h := h.frame _ rfl rfl rfl rfl rfl rfl
+  steps _ _ _ h := h.frame _ rfl rfl rfl rfl rfl rfl
   incall _ i v _ _ h hv := h.withS _ (h.vars.aset i _ (h.var (v := v) hv))
   simple _ _ _ _ _ h hs := stepSimple_WF h hs
   collect _ _ h := h.collect
